@@ -5,7 +5,7 @@
            on the reply = optional because NO_REPLY_EXPECTED was set), joined by ';'
    class:  per op the known-deviation class it falls in or '-', joined by ';'                         *)
 From ZV Require Import Base.Bytes Base.Res C26.Desc C26.Tree C26.Msg C26.Std C27.Model C28.Model C26.Model C33.Model.
-From ZV Require Import C28.Spec C26.Spec C27.Spec C33.Spec.
+From ZV Require Import C28.Spec C26.Spec C27.Spec C33.Spec C27.Reader.
 From ZV Require C10.Model C06.Model C34.Model.
 
 (* ---------------------------------------------------------------- parsing: values *)
@@ -301,20 +301,6 @@ Definition render_pres (r : pres) : bytes :=
   end.
 
 (* ---------------------------------------------------------------- introspection: canonical forms *)
-Definition sig_parse (b : bytes) : option bytes :=
-  match C06.Model.from_str false b with Ok t => Some (C06.Model.show t) | _ => None end.
-Definition read_doc : C34.Model.xml -> res C34.Model.xerr (C34.Model.node bytes) :=
-  C34.Model.of_node bytes sig_parse C10.Model.validate_member C10.Model.validate_interface C10.Model.validate_property
-            (fun v => Ok v).
-
-(* the infoset the tokenizer delivers for the written items: comments vanish *)
-Fixpoint erase (x : xi) : list C34.Model.xml :=
-  match x with
-  | XC _ => []
-  | XE tag attrs kids _ =>
-      [C34.Model.Elem tag attrs ((fix go (l : list xi) : list C34.Model.xml := match l with [] => [] | k :: r => erase k ++ go r end) kids)]
-  end.
-
 Definition canon_arg (a : C34.Model.arg bytes) : bytes :=
   (match C34.Model.ar_name bytes a with Some n => n | None => B "-" end) ++ B "=" ++ C34.Model.ar_ty bytes a.
 Definition is_in (a : C34.Model.arg bytes) : bool := match C34.Model.ar_dir bytes a with Some C34.Model.DIn => true | _ => false end.
